@@ -395,6 +395,7 @@ pub fn ring_world(r: &mut Rng, tier: Tier, o: &RingOpts) -> (WorldCfg, OracleCfg
             rejoin_keep_apps,
             tx_done: tx_done.clone(),
             rx_chunk_us,
+            tx_lag_us: 0,
             dup_poll_pm: if o.buggify && r.chance(1, 3) { r.range(1, 100) as u32 } else { 0 },
             stale_rx: vec![],
         });
@@ -835,6 +836,7 @@ pub fn dp_world(r: &mut Rng, tier: Tier, o: &DpOpts) -> (WorldCfg, OracleCfg, Ve
             apps,
             tx_done: TxDoneCfg::Exact,
             rx_chunk_us,
+            tx_lag_us: 0,
             dup_poll_pm: if r.chance(1, 4) { r.range(1, 50) as u32 } else { 0 },
             stale_rx: vec![],
         }
@@ -1182,6 +1184,7 @@ pub fn adv_world(r: &mut Rng, tier: Tier, o: &AdvOpts) -> (WorldCfg, OracleCfg, 
         apps,
         tx_done: if o.hostile { r.pick(&[TxDoneCfg::Exact, TxDoneCfg::Exact, TxDoneCfg::Early]).clone() } else { TxDoneCfg::Exact },
         rx_chunk_us: 0,
+        tx_lag_us: 0,
         dup_poll_pm: if r.chance(1, 3) { r.range(1, 100) as u32 } else { 0 },
         stale_rx: if o.hostile && r.chance(1, 6) {
             let n = r.range(1, 12) as usize;
@@ -1529,6 +1532,7 @@ pub fn scan_world(r: &mut Rng, tier: Tier) -> (WorldCfg, OracleCfg, Vec<Fault>) 
             apps,
             tx_done: TxDoneCfg::Exact,
             rx_chunk_us: 0,
+            tx_lag_us: 0,
             dup_poll_pm: if r.chance(1, 4) { r.range(1, 50) as u32 } else { 0 },
             stale_rx: vec![],
         }
@@ -1818,7 +1822,23 @@ pub fn generate(check: &str, tier: Tier, base_seed: u64, k: u64) -> Scenario {
                 (w, o, f)
             } else {
                 let polite = r.chance(1, 2);
-                adv_world(&mut r, tier, &AdvOpts { polite, apps: false, hostile: false, log_all: false })
+                let (mut w, o, f) = adv_world(&mut r, tier, &AdvOpts { polite, apps: false, hostile: false, log_all: false });
+                // Every fifth world: a transmitter with latency (a different amount for every
+                // transmission, up to a quarter of the slot time), polled fast enough that the
+                // station still reacts within the slot time.  (A generator of its own: the other
+                // scenarios of a seed stay what they were.)
+                let mut rl = Rng::derived(seed, "txlag", 0);
+                if rl.chance(1, 5) {
+                    let st = &mut w.stations[0];
+                    let tslot_us = bit_us(w.baud, u64::from(st.slot_bits)).max(1);
+                    let lag = rl.range((tslot_us / 16).max(1), (tslot_us / 4).max(1));
+                    let p_cap = max_poll_period_us(w.baud, st.slot_bits, lag).min((lag / 4).max(1));
+                    st.tx_lag_us = lag;
+                    st.p_max_us = st.p_max_us.min(p_cap).max(1);
+                    st.p_min_us = st.p_min_us.min(st.p_max_us).max(1);
+                    st.tx_done = TxDoneCfg::Exact;
+                }
+                (w, o, f)
             }
         }
         "C12" => {
